@@ -4,8 +4,8 @@ import numpy as np
 from harness import common as C
 from harness import zoo as Z
 
-ANCHORS = ["T7unseen", "T4"]
-MODELS = []
+ANCHORS = ["T7unseen", "T4", "T7mic"]
+MODELS = ["Mic", "MicCase"]
 RULE = ("fitted transform-capable models (EOF, ComplexEOF, SparsePCA, POP, their rotators, CPCCA family, their rotators, multi.CCA) x new data with "
         "1..N samples, sample coordinates disjoint from / overlapping / equal to the training ones, one or two sample dimensions, a sample "
         "MultiIndex, and EVERY split point of the new data into two parts; non-trivial: >= 2 new samples and >= 2 features; distinct by input hash")
@@ -101,44 +101,72 @@ def run_single(ctx, rng, N):
 
 
 def run_structured(ctx, rng, N):
-    """two sample dimensions and a sample MultiIndex"""
+    """two sample dimensions and a sample MultiIndex: new data with the training sample count and with another one,
+    consecutive transforms of equally sized parts, every split along the first sample dimension"""
     import pandas as pd
     import xarray as xr
     import xeofs as xe
+
+    def labels(t, kind):
+        if kind == "two-dims":
+            return [int(v) for v in t.year.values], [int(v) for v in t.month.values]
+        return [tuple(int(x) for x in v) for v in t.indexes["time"].tolist()], None
+
     for i in range(N):
         kind = ["two-dims", "multiindex"][i % 2]
+        count = ["same-count", "other-count"][(i // 2) % 2]
         p = int(rng.integers(3, 6))
         if kind == "two-dims":
-            X = xr.DataArray(rng.standard_normal((3, 4, p)), dims=("year", "month", "x"),
-                             coords={"year": [2000, 2001, 2002], "month": [1, 2, 3, 4], "x": np.arange(p)})
-            new = xr.DataArray(rng.standard_normal((2, 4, p)), dims=("year", "month", "x"),
-                               coords={"year": [2010, 2011], "month": [1, 2, 3, 4], "x": np.arange(p)})
-            dim = ("year", "month")
+            def mk(years):
+                return xr.DataArray(rng.standard_normal((len(years), 4, p)), dims=("year", "month", "x"),
+                                    coords={"year": years, "month": [1, 2, 3, 4], "x": np.arange(p)})
+            X = mk([2000, 2001, 2002, 2003])
+            new = mk([2010, 2011, 2012, 2013] if count == "same-count" else [2010, 2011])
+            dim, split_dim = ("year", "month"), "year"
         else:
-            mi = pd.MultiIndex.from_product([[2000, 2001, 2002], [1, 2, 3]], names=("yy", "mm"))
-            X = xr.DataArray(rng.standard_normal((9, p)), dims=("time", "x"), coords={"x": np.arange(p)}).assign_coords(
-                xr.Coordinates.from_pandas_multiindex(mi, "time"))
-            mi2 = pd.MultiIndex.from_product([[2010, 2011], [1, 2]], names=("yy", "mm"))
-            new = xr.DataArray(rng.standard_normal((4, p)), dims=("time", "x"), coords={"x": np.arange(p)}).assign_coords(
-                xr.Coordinates.from_pandas_multiindex(mi2, "time"))
-            dim = "time"
-        replay = dict(kind=kind, X=np.asarray(X.values), new=np.asarray(new.values))
-        ctx.case(("c05s", kind, p, i), nontrivial=True, tag="EOF/" + kind, sample=dict(cls="EOF", structure=kind, features=p))
+            def mk(years, months):
+                mi = pd.MultiIndex.from_product([years, months], names=("yy", "mm"))
+                return xr.DataArray(rng.standard_normal((len(mi), p)), dims=("time", "x"), coords={"x": np.arange(p)}).assign_coords(
+                    xr.Coordinates.from_pandas_multiindex(mi, "time"))
+            X = mk([2000, 2001, 2002, 2003], [1, 2])
+            new = mk([2010, 2011, 2012, 2013], [1, 2]) if count == "same-count" else mk([2010, 2011], [1, 2, 3])
+            dim, split_dim = "time", "time"
+        replay = dict(kind=kind, count=count, X=np.asarray(X.values), new=np.asarray(new.values))
+        ctx.case(("c05s", kind, count, p, i), nontrivial=True, tag="EOF/%s/%s" % (kind, count), sample=dict(cls="EOF", structure=kind, new=count, features=p))
+        key = "C05:EOF:%s" % kind
         try:
             m = xe.single.EOF(n_modes=2)
             m.fit(X, dim)
             t = m.transform(new)
         except Exception as e:
-            ctx.violation("C05:EOF:%s:error:%s" % (kind, C.errkind(e)), "EOF with %s: transform of new data raised %r" % (kind, e), replay)
+            ctx.violation(key + ":error:" + C.errkind(e), "EOF with %s: transform of new data (%s) raised %r" % (kind, count, e), replay)
             continue
-        ok = True
-        if kind == "two-dims":
-            ok = set(t.dims) == {"year", "month", "mode"} and list(t.year.values) == [2010, 2011] and not np.isnan(t.values).any()
-        else:
-            ok = "time" in t.dims and t.sizes["time"] == 4 and not np.isnan(t.values).any() and \
-                [tuple(v) for v in t.indexes["time"].tolist()] == [tuple(v) for v in new.indexes["time"].tolist()]
-        if not ok:
-            ctx.violation("C05:EOF:%s:labels" % kind, "EOF with %s: scores of new data are not labelled by the new data's own sample coordinates or contain NaN" % kind, replay)
+        if labels(t, kind) != labels(new, kind) or np.isnan(t.values).any():
+            ctx.violation(key + ":labels", "EOF with %s: scores of new data (%s) are labelled %r, the new data has %r (or contain NaN)" % (
+                kind, count, labels(t, kind)[0][:4], labels(new, kind)[0][:4]), replay)
+            continue
+        # consecutive transforms of parts (equal and unequal sizes) against the transform of the whole
+        n = new.sizes[split_dim]
+        for cut in range(1, n):
+            a, b = new.isel({split_dim: slice(0, cut)}), new.isel({split_dim: slice(cut, None)})
+            try:
+                ta, tb = m.transform(a), m.transform(b)
+            except Exception as e:
+                ctx.violation(key + ":split-error:" + C.errkind(e), "EOF with %s: transform of a part (split %d of %d) raised %r" % (kind, cut, n, e), replay)
+                break
+            if labels(ta, kind) != labels(a, kind) or labels(tb, kind) != labels(b, kind):
+                ctx.violation(key + ":labels", "EOF with %s: consecutive transforms of two parts (split %d of %d): the second part is labelled %r, it has %r" % (
+                    kind, cut, n, labels(tb, kind)[0][:4], labels(b, kind)[0][:4]), replay)
+                break
+            cat = np.concatenate([ta.transpose(split_dim, ...).values, tb.transpose(split_dim, ...).values], axis=0)
+            if not Z.same(cat, t.transpose(split_dim, ...).transpose(*ta.transpose(split_dim, ...).dims).values, 1e-8):
+                ctx.violation(key + ":concat", "EOF with %s: transform(A ++ B) != transform(A) ++ transform(B) at split %d of %d" % (kind, cut, n), replay)
+                break
+        # the fitted scores keep the training labels after transforms of other data
+        sc = m.scores()
+        if labels(sc, kind) != labels(X, kind):
+            ctx.violation(key + ":fit-labels", "EOF with %s: after transforming other data the fitted scores are labelled %r, the training data has %r" % (
+                kind, labels(sc, kind)[0][:4], labels(X, kind)[0][:4]), replay)
 
 
 def run_cross(ctx, rng, N):
@@ -198,9 +226,11 @@ def run(ctx):
     C.setup_impl_env()
     rng = ctx.rng.child("c05").np
     run_single(ctx, rng, ctx.n(36, 800))
-    run_structured(ctx, rng, ctx.n(6, 60))
+    run_structured(ctx, rng, ctx.n(8, 80))
     run_cross(ctx, rng, ctx.n(25, 600))
     run_multi(ctx, rng, ctx.n(6, 60))
+    from harness import mic
+    mic.run(ctx, "C05", ctx.n(150, 1500))
     ctx.oblige("oracle:per-sample transform, own labels, no spurious NaN, every split point", "oracle", not ctx.violations)
 
 
